@@ -422,6 +422,28 @@ def jv(v):
     return v
 
 
+def sync_state(d, spec):
+    """the embedding application's file system at the time of this run: `state` maps relative names to text, to
+    {"dir": true} (a directory of that name) or to None (does not exist)"""
+    os.makedirs(d, exist_ok=True)
+    with open(os.path.join(d, "recipe.yml"), "w") as f:
+        f.write(spec["recipe"])
+    for rel, content in spec["state"].items():
+        p = os.path.join(d, rel)
+        if os.path.isdir(p) and not (isinstance(content, dict) and content.get("dir")):
+            shutil.rmtree(p)
+        elif os.path.isfile(p) and (content is None or isinstance(content, dict)):
+            os.remove(p)
+        if content is None:
+            continue
+        if isinstance(content, dict):
+            os.makedirs(p, exist_ok=True)
+            continue
+        os.makedirs(os.path.dirname(p), exist_ok=True)
+        with open(p, "w", newline="") as f:
+            f.write(content)
+
+
 def run_one(spec, rec, workroot, shared_dicts):
     """Execute one run; returns the JSON-able result."""
     from faker import Faker
@@ -431,6 +453,8 @@ def run_one(spec, rec, workroot, shared_dicts):
 
     rec.ops = []
     rec.rebind()
+    if spec.get("state") is not None and spec.get("dir"):
+        sync_state(os.path.join(workroot, spec["dir"]), spec)
     random.seed(spec.get("seed", 0))
     Faker.seed(spec.get("seed", 0))
     res = {"rid": spec["rid"], "outcome": None, "error": None, "rows": [], "exc": None}
@@ -633,6 +657,9 @@ def run_jobs(jobs, cells, nproc=None):
         os.makedirs(workroot)
         outdir = os.path.join(work, "out")
         os.makedirs(outdir)
+        # specs with a "state" (files that appear / disappear between the runs of one process) get a directory private to the job
+        jobs = [[(dict(spec, dir=f"{spec['dir']}_j{ji}") if spec.get("state") is not None and spec.get("dir") else spec) for spec in job]
+                for ji, job in enumerate(jobs)]
         for job in jobs:
             for spec in job:
                 materialise(spec, workroot)
@@ -1146,6 +1173,76 @@ def gen_misc_plugins(rng):
                   needs_dir=True)
 
 
+def resource_groups(rng):
+    """FAILING runs followed by runs that touch the same resources (same directory, same paths / names) once the cause is
+    gone: every group is a list of run specifications sharing one job-private directory; `state` is the complete file
+    state at the time of the run, so the fresh-process baseline of a run sees the same files."""
+    groups = []
+    w = rng.choice(SAFE_WORDS) + str(rng.randint(0, 999))
+    dn = "grp_" + w
+
+    def spec(kind, recipe, state, **kw):
+        return finish(dict({"kind": kind, "recipe": recipe, "state": state, "reps": 1, "det": True, "dirname": dn + "_" + kind,
+                            "features": ["resource_group"]}, **kw), needs_dir=True)
+
+    # include_file: missing / a directory, then present; then another recipe including the same path; include cycle, then fixed
+    inc = f"- object: Inc\n  fields:\n    w: {w}\n"
+    main = f"- include_file: inc.yml\n- object: Main\n  fields:\n    v: {rng.randint(1, 9)}\n"
+    other = f"- object: First\n- include_file: inc.yml\n"
+    bad = rng.choice([None, {"dir": True}])
+    groups.append([spec("g_include", main, {"inc.yml": bad}), spec("g_include", main, {"inc.yml": inc}),
+                   spec("g_include", other, {"inc.yml": inc}), spec("g_include", main, {"inc.yml": bad}),
+                   spec("g_include", other, {"inc.yml": inc})])
+    cyc_a = "- include_file: b.yml\n- object: A\n"
+    groups.append([spec("g_cycle", cyc_a, {"b.yml": "- include_file: recipe.yml\n- object: B\n"}),
+                   spec("g_cycle", cyc_a, {"b.yml": "- object: B\n"}),
+                   spec("g_cycle", cyc_a, {"b.yml": "- include_file: b.yml\n"}),
+                   spec("g_cycle", cyc_a, {"b.yml": "- object: B\n  fields:\n    x: 1\n"})])
+    # macros: a macro that includes itself / an unknown macro, then good recipes using the same macro names
+    good_macro = f"- macro: addr\n  fields:\n    street: {w} road\n- object: P\n  include: addr\n  fields:\n    n: 1\n"
+    self_macro = "- macro: addr\n  include: addr\n  fields:\n    street: x\n- object: P\n  include: addr\n"
+    unknown_macro = "- object: P\n  include: addr\n"
+    two = f"- macro: addr\n  include: zip\n  fields:\n    street: s\n- macro: zip\n  fields:\n    code: {rng.randint(10000, 99999)}\n- object: Q\n  include: addr\n"
+    groups.append([spec("g_macro", self_macro, {}), spec("g_macro", good_macro, {}), spec("g_macro", unknown_macro, {}),
+                   spec("g_macro", two, {}), spec("g_macro", self_macro, {}), spec("g_macro", two, {})])
+    # dataset file: missing, then created under the same name
+    ds = ("- snowfakery_version: 3\n- plugin: snowfakery.standard_plugins.datasets.Dataset\n- object: Row\n  count: 2\n  fields:\n"
+          "    __rec:\n      Dataset.iterate:\n        dataset: data.csv\n    name: ${{__rec.name}}\n")
+    groups.append([spec("g_dataset", ds, {"data.csv": None}), spec("g_dataset", ds, {"data.csv": f"name\n{w}1\n{w}2\n"}),
+                   spec("g_dataset", ds, {"data.csv": None}), spec("g_dataset", ds, {"data.csv": f"name\n{w}3\n"})])
+    # update input file: missing, then created
+    up = "- snowfakery_version: 3\n- object: Acc\n  fields:\n    n: up-${{input.name}}\n"
+    groups.append([spec("g_update", up, {"input.csv": None}, update_input="input.csv"),
+                   spec("g_update", up, {"input.csv": f"name\n{w}\n"}, update_input="input.csv"),
+                   spec("g_update", up, {"input.csv": "name\n"}, update_input="input.csv")])
+    # plugin next to the recipe: class missing in the module, then a plugin under another module name in the same directory
+    plug = "- snowfakery_version: 3\n- plugin: {m}.Local\n- object: P\n  fields:\n    plug: ${{{{Local.val()}}}}\n"
+    m1, m2 = "gp_" + w + "a", "gp_" + w + "b"
+    # (the `plugins` directory exists from the start: a directory that appears only later is finding D58, separate group below)
+    groups.append([spec("g_plugin", plug.format(m="gp_missing_" + w), {"plugins/readme.txt": "x"}),
+                   spec("g_plugin", plug.format(m=m1), {"plugins/readme.txt": "x", f"plugins/{m1}.py": "x = 1\n"}),
+                   spec("g_plugin", plug.format(m=m2), {"plugins/readme.txt": "x", f"plugins/{m1}.py": "x = 1\n",
+                                                        f"plugins/{m2}.py": PLUGIN_SRC.format(cls="Local", val=w)})])
+    # D58: the recipe's `plugins` directory does not exist at the first (failing) attempt and is created afterwards
+    m3 = "gp_" + w + "c"
+    groups.append([spec("g_plugdir", plug.format(m=m3), {}, features=["resource_group", "late_plugin_dir"]),
+                   spec("g_plugdir", plug.format(m=m3), {f"plugins/{m3}.py": PLUGIN_SRC.format(cls="Local", val=w)},
+                        features=["resource_group", "late_plugin_dir"])])
+    # every member names every file of its group (absent = None), so that the state is complete whatever ran before
+    out = []
+    for g in groups:
+        rels = sorted({r for sp in g for r in sp["state"]})
+        out.append([finish(dict({k: v for k, v in sp.items() if k not in ("rid", "dir")},
+                                state={r: sp["state"].get(r) for r in rels}), needs_dir=True) for sp in g])
+    return out
+
+
+def keeps_order(seq):
+    """groups whose later members rely on Python's import cache semantics (a module file that disappears stays imported)
+    are only run in their written order"""
+    return any(s["kind"] in ("g_plugin", "g_plugdir") for s in seq)
+
+
 GENS = [(gen_update, 3), (gen_bigcsv, 3), (gen_misc_plugins, 1), (gen_l2, 6), (gen_ref, 2), (gen_vars, 3), (gen_counters, 2), (gen_uid, 3), (gen_dataset, 4), (gen_dates, 3),
         (gen_schedule_math, 1), (gen_plugin, 2), (gen_fail, 4), (gen_dataset_fail_inside, 1), (gen_continuation, 1)]
 
@@ -1202,6 +1299,8 @@ def fixed_sequences():
         big = gen_bigcsv(rng)
     out.append([upd, big])
     out.append([big, upd, gen_misc_plugins(rng), big])
+    # failing runs followed by runs that touch the same resources
+    out.extend(resource_groups(rng))
     # the seeded-mutation shape: same relative URL text, different directories, both kinds
     for _ in range(2):
         a, b = gen_dataset(rng), gen_dataset(rng)
@@ -1498,6 +1597,8 @@ def check_sequence(rep, seq, res, baselines, known):
             feats = set(spec.get("features", []))
             if "aware" in feats and fields and fields <= ALIAS_FIELDS and i in res.get("_explained_alias", []):
                 sig = "C19:datetime-cache-aliasing-across-runs"
+            elif "late_plugin_dir" in feats and want["outcome"] == "ok" and got["exc"] == "DataGenImportError":
+                sig = "C19:plugin-directory-created-after-failed-import"
             elif "alias" in feats and fields and fields <= {"plug", "mem"}:
                 sig = "C19:local-plugin-module-aliasing"
             elif "shared_plugin_options" in feats and r.get("po_before") != base.get("po_before"):
@@ -1574,8 +1675,18 @@ def run(ctx, rep, findings):
             mixed = g + other
             rng.shuffle(mixed)
             sequences.append(mixed)
+    for _ in range(ctx.scale(6, 60)):
+        for g in resource_groups(rng):
+            k = rng.randint(2, len(g))
+            start = rng.randint(0, len(g) - k)
+            sub = g[start:start + k]
+            if keeps_order(g):
+                sub = g[:k]
+            elif rng.random() < 0.4:
+                sub = sub + [rng.choice(pool)] + [rng.choice(g)]
+            sequences.append(sub)
     # orderings: every third sequence also runs reversed
-    sequences += [list(reversed(s)) for s in sequences[len(fixed_sequences())::3]]
+    sequences += [list(reversed(s)) for s in sequences[len(fixed_sequences())::3] if not keeps_order(s)]
     chunk = 120 if ctx.tier == "quick" else 250
     for i in range(0, len(sequences), chunk):
         execute(rep, sequences[i:i + chunk], known)
